@@ -48,11 +48,11 @@ class Sess:
 
 
 class Node:
-    def __init__(self, name, binary, wd, join=None):
+    def __init__(self, name, binary, wd, join=None, ports=None):
         self.name = name
         self.dir = os.path.join(wd, name)
         os.makedirs(self.dir, exist_ok=True)
-        self.tcp, self.ws, self.http = _free_ports(3)
+        self.tcp, self.ws, self.http = ports or _free_ports(3)
         self.addr = "127.0.0.1:%d" % self.tcp
         env = dict(os.environ)
         env.update({"NUN_DBS_DIR": self.dir, "NUN_USER": "nun", "NUN_PWD": "pwd", "NUN_LOG_LEVEL": "Off", "RUST_BACKTRACE": "0",
@@ -110,6 +110,23 @@ class Node:
         # leave the reader on no particular database's counter: it stays selected on the last one; $connections is not compared
         return " ".join(parts)
 
+    def shutdown(self):
+        """SIGINT: db_ops::safe_shutdown (snapshot of everything) and exit"""
+        import signal
+        for sess in list(self.sessions.values()) + ([self.reader] if self.reader else []):
+            try:
+                sess.s.close()
+            except Exception:
+                pass
+        self.sessions, self.reader = {}, None
+        self.p.send_signal(signal.SIGINT)
+        try:
+            self.p.wait(timeout=10)
+            return True
+        except Exception:
+            self.p.kill(); self.p.wait()
+            return False
+
     def kill(self):
         try:
             self.p.kill(); self.p.wait()
@@ -123,6 +140,7 @@ def run_case(case, binary, wd):
     os.makedirs(wd, exist_ok=True)
     toks = crash_tokens(ops)
     nodes = {}
+    down = {}
     obs = []
     try:
         nodes["n1"] = Node("n1", binary, wd)
@@ -149,6 +167,24 @@ def run_case(case, binary, wd):
                 settle()
             elif op[0] == "settle":
                 settle()
+            elif op[0] == "drop":
+                # the node goes away: a graceful stop (SIGINT -> safe_shutdown) the first time, nothing afterwards
+                x = op[2]
+                if x in nodes and nodes[x].p.poll() is None:
+                    if not nodes[x].shutdown():
+                        obs.append("SHUTDOWN-TIMEOUT %s" % x)
+                    down[x] = nodes.pop(x)
+                    time.sleep(0.3)
+            elif op[0] == "resync":
+                # it comes back: the same directory and address, the real start-up and join
+                x = op[1]
+                if x in down:
+                    old = down.pop(x)
+                    nodes[x] = Node(x, binary, wd, join=nodes[op[2]].addr, ports=(old.tcp, old.ws, old.http))
+                    time.sleep(START_WAIT)
+                    settle()
+            elif op[0] in ("pollrepl", "pollsup", "deliver", "reply"):
+                continue            # scheduler steps of the model: real processes schedule themselves
             elif op[0] == "cmd":
                 n, sid, line = op[1], int(op[2]), bytes.fromhex(op[3][1:]).decode("utf-8")
                 if n not in nodes:
@@ -190,6 +226,7 @@ def run_cases(cases, binary, rundir, workers=8):
 
     def formed(c, r):
         started = {"n1"} | {op[2] for op in c[2] if op[0] == "addsec"}
+        started -= {op[2] for op in c[2] if op[0] == "drop"} - {op[1] for op in c[2] if op[0] == "resync"}
         lines = {l.split(" ")[1]: l for l in r["obs"] if l.startswith("N ")}
         return (all(n in lines for n in started) and lines.get("n1", "").startswith("N n1 role=P")
                 and all(lines[n].startswith("N %s role=S" % n) for n in started if n != "n1")
@@ -228,6 +265,7 @@ def reduce_model(case, obs):
     last = dumps[-1]
     out = []
     started = {"n1"} | {op[2] for op in case[2] if op[0] == "addsec"}
+    started -= {op[2] for op in case[2] if op[0] == "drop"} - {op[1] for op in case[2] if op[0] == "resync"}
     for m in NODE_RE.finditer(last):
         name, role = m.group(1), m.group(2)
         if name not in started:
